@@ -349,6 +349,26 @@ class L2Gen:
             self.created_before.append(t)
             if nk:
                 self.created_before.append(nk)
+        x = r.random()
+        if x < 0.10:
+            # a top-level variable read BEFORE its `var` statement: undefined in the first iteration, and from the
+            # second iteration on it still holds the value of the iteration before (the top-level context lives for
+            # the whole run)
+            v = r.choice(L2_VARS)
+            reader = {"object": r.choice(L2_TABLES[:3]), "fields": [["f1", ["tmpl", [["text", "w"], ["expr", ["name", v]], ["text", ""]]]]]}
+            sts.insert(0, reader)
+            sts.append({"var": v, "value": ["lit", r.randint(1, 9)]})
+            self.features.add("late-var")
+        elif x < 0.18 and len(plan) >= 1:
+            # a just_once row that holds a FORWARD reference, read back through its nickname in every iteration:
+            # the slot object of the first iteration stays alive in the stored row with the id it held
+            target = plan[-1][0]
+            j = {"object": "A", "nickname": "n1", "just_once": True, "fields": [["f1", ["ref", target]], ["f2", ["lit", 4]]]}
+            rd = {"object": "B", "fields": [["f3", ["ref", "n1.f1"]], ["f2", ["tmpl", [["expr", ["attr", ["name", "n1"], "f2"]]]]]]}
+            sts.insert(0, j)
+            sts.insert(1, rd)
+            sts.append({"object": "C", "fields": [["f1", ["ref", "n1.f1"]]]})
+            self.features.add("just_once-forward-ref")
         opts = [["o1", r.choice([1, 2, 3])]] + ([["count", r.choice([5, 9])]] if count_option else [])
         return {"version": r.choice([2, 3]), "options": opts, "statements": sts}
 
